@@ -29,7 +29,7 @@ NOT_PROVED = [
     "finite output: searched",
 ]
 ASSUMPTIONS = [
-    "detector angles come from holopy's spherical coordinates (theta in [0, pi], phi in [0, 2 pi]; C19) - hypothesis of C10_angular_guard_unreachable; raw detector_points(theta=, phi=) outside that range reach the guard, which now reports through NaNs -> TmatrixFailure (searched)",
+    "detector angles come from holopy's spherical coordinates (theta in [0, pi], phi in [0, 2 pi]; C19) - hypothesis of C10_angular_guard_unreachable; a raw detector_points azimuth outside that range is reduced by the wrapper (fix of round 8), a polar angle outside [0, pi] reaches the guard, which reports through NaNs -> TmatrixFailure (searched)",
     "the two STOP statements left in the Fortran (VARY: NMAX > NPN1, enforced by the caller's loop bound; XERBLA: illegal LAPACK dimension arguments) are unreachable",
 ]
 TRUSTED = ["statement-level Fortran translator (HoloGen/Proj.lean) and the regex extraction of the guard constants / STOP list (HoloGen/TmGuards.lean)"]
@@ -317,6 +317,12 @@ def oracle_case(i, seed):
         N = 8
         th = rng.uniform(0.02, 1.1, size=N)
         ph = rng.uniform(0, 2 * math.pi, size=N)
+        # an azimuth may be WRITTEN in any range: (-pi, pi], [0, 2 pi), beyond a full turn -- the same directions (scheduled)
+        written = (i // 5) % 3
+        if written == 1:
+            ph = np.where(ph > math.pi, ph - 2 * math.pi, ph)
+        elif written == 2:
+            ph = ph + 2 * math.pi * (np.arange(N) % 2)
         rr = np.full(N, float(rng.uniform(20, 80)))
         pts = detector_points(theta=th, phi=ph, r=rr)
         nn = complex(float(rng.uniform(1.4, 1.7)), float(rng.choice([0.0, rng.uniform(0, 0.1)])))
@@ -327,7 +333,15 @@ def oracle_case(i, seed):
             sc = Sphere(n=nn, r=x / K, center=(0, 0, 0))
             info = dict(kind="sphere-limit", n=cxl(nn), x=x, theta=th.tolist(), phi=ph.tolist())
             tried.append(_t("sphere-limit", (round(x, 5), round(nn.real, 4))))
-            a = vec(calc_field(pts, sc, illum_polarization=(1, 0), theory=Tmatrix(), **opt))
+            try:
+                a = vec(calc_field(pts, sc, illum_polarization=(1, 0), theory=Tmatrix(), **opt))
+            except TmatrixFailure:
+                # a refusal is allowed for a particle the method cannot do -- not for the way an azimuth is written
+                ptsn = detector_points(theta=th, phi=np.mod(ph, 2 * math.pi), r=rr)
+                calc_field(ptsn, sc, illum_polarization=(1, 0), theory=Tmatrix(), **opt)       # raises again if the particle is the reason
+                viol.append(_v("C10:sphere-limit:azimuth-notation", "sphere x=%.3g: Tmatrix refuses (TmatrixFailure) the azimuths %s and computes the same directions written in [0, 2 pi); Lorenz-Mie computes both" % (
+                    x, np.round(ph[:4], 3).tolist()), info))
+                return out
             b = vec(calc_field(pts, sc, illum_polarization=(1, 0), theory=Mie(False, False), **opt))
             dev = float(np.abs(a - b).max() / np.abs(b).max())
             if not (dev <= 2e-5):
